@@ -83,7 +83,12 @@ func TestC20RealClientSync(t *testing.T) {
 				watchdog(3*time.Second, func() { _ = rc.cl.Close() })
 			}
 		}()
-		for ci := 0; ci < 2; ci++ {
+		// lateEntry: the creator's goroutines start BEFORE its first sync (an application that creates a datatype and
+		// goes to work at once; the first answer of the server is applied while calls and transactions are running);
+		// the second client joins as soon as the datatype exists on the server
+		lateEntry := rapid.IntRange(0, 2).Draw(rt, "creator_works_before_its_first_sync") == 0
+		c.j.Header.(map[string]interface{})["creator_works_before_its_first_sync"] = lateEntry
+		enter := func(ci int, entrySync bool) {
 			cl, e := w.env.NewRealClient(w.col, fmt.Sprintf("app%d", ci), model.SyncType_MANUALLY)
 			if e != nil {
 				c.failf("HARNESS-ERROR: %v", e)
@@ -100,11 +105,17 @@ func TestC20RealClientSync(t *testing.T) {
 			d := &c05rDT{key: k, mode: mode}
 			d.dt = openReal(cl, kind, k.Name, mode, d.handlers())
 			rc.dts[k.Name] = d
-			if err, hung := syncWithDeadline(cl, l1Deadline); err != nil || hung {
-				c.failf("HARNESS-ERROR: entry sync of client %d: err=%v hung=%v", ci, err, hung)
+			if entrySync {
+				if err, hung := syncWithDeadline(cl, l1Deadline); err != nil || hung {
+					c.failf("HARNESS-ERROR: entry sync of client %d: err=%v hung=%v", ci, err, hung)
+				}
 			}
 			d.synced = true
 			k.created, k.duid = true, d.dt.GetDUID()
+		}
+		enter(0, !lateEntry)
+		if !lateEntry {
+			enter(1, true)
 		}
 		var mu sync.Mutex
 		var problems []string
@@ -115,7 +126,17 @@ func TestC20RealClientSync(t *testing.T) {
 		}
 		var overlapped int32
 		var wg sync.WaitGroup
-		for ci, rc := range clients {
+		for ci := 0; ci < 2; ci++ {
+			if ci == 1 && lateEntry {
+				if !waitUntil(5*time.Second, func() bool {
+					return clients[0].dts[k.Name].dt.GetState() == model.StateOfDatatype_SUBSCRIBED
+				}) {
+					note("the creator never became subscribed although its sync loop was running")
+					break
+				}
+				enter(1, true)
+			}
+			rc := clients[ci]
 			d := rc.dts[k.Name]
 			var inTx, done int32
 			var swg sync.WaitGroup
@@ -129,6 +150,18 @@ func TestC20RealClientSync(t *testing.T) {
 						note(fmt.Sprintf("client %d: a call panicked: %v", ci, p))
 					}
 				}()
+				if ci == 0 && lateEntry {
+					// the creator's first moments: transactions that stay open for a while (some fail), so that the answer
+					// to its very first sync arrives while one of them is running
+					for i := 0; i < 4; i++ {
+						atomicStore(&inTx, 1)
+						if r := c18ExecTx(kind, d.dt, c18Op{Call: c06CheapCall(kind, 9000+i), Tx: true, TxSleep: 300 * (i + 1), TxFail: i%2 == 0}); r.Panic != nil {
+							note(fmt.Sprintf("client %d: a transaction panicked: %v", ci, r.Panic))
+							return
+						}
+						atomicStore(&inTx, 0)
+					}
+				}
 				for _, st := range sc.Steps {
 					for y := 0; y < st.Yield; y++ {
 						runtime.Gosched()
